@@ -67,12 +67,16 @@ struct POOL_ctx_s {
 static void* POOL_thread(void* opaque) {
     POOL_ctx* const ctx = (POOL_ctx*)opaque;
     if (!ctx) { return NULL; }
-    for (;;) {
+    for (;;)
+    ZSTD_VERIF_LOOP(ZSTD_VERIF_POOL_WORKERLOOP(ctx))
+    {
         /* Lock the mutex and wait for a non-empty queue or until shutdown */
         ZSTD_pthread_mutex_lock(&ctx->queueMutex);
 
         while ( ctx->queueEmpty
-            || (ctx->numThreadsBusy >= ctx->threadLimit) ) {
+            || (ctx->numThreadsBusy >= ctx->threadLimit) )
+        ZSTD_VERIF_LOOP(ZSTD_VERIF_POOL_WAITLOOP(ctx))
+        {
             if (ctx->shutdown) {
                 /* even if !queueEmpty, (possible if numThreadsBusy >= threadLimit),
                  * a few threads will be shutdown while !queueEmpty,
@@ -87,6 +91,7 @@ static void* POOL_thread(void* opaque) {
             ctx->queueHead = (ctx->queueHead + 1) % ctx->queueSize;
             ctx->numThreadsBusy++;
             ctx->queueEmpty = (ctx->queueHead == ctx->queueTail);
+            ZSTD_VERIF_GHOST(zstd_verif_pool_dequeued(ctx, job.opaque);)
             /* Unlock the mutex, signal a pusher, and run the job */
             ZSTD_pthread_cond_signal(&ctx->queuePushCond);
             ZSTD_pthread_mutex_unlock(&ctx->queueMutex);
@@ -193,7 +198,9 @@ void POOL_free(POOL_ctx *ctx) {
  */
 void POOL_joinJobs(POOL_ctx* ctx) {
     ZSTD_pthread_mutex_lock(&ctx->queueMutex);
-    while(!ctx->queueEmpty || ctx->numThreadsBusy > 0) {
+    while(!ctx->queueEmpty || ctx->numThreadsBusy > 0)
+    ZSTD_VERIF_LOOP(ZSTD_VERIF_POOL_WAITLOOP(ctx))
+    {
         ZSTD_pthread_cond_wait(&ctx->queuePushCond, &ctx->queueMutex);
     }
     ZSTD_pthread_mutex_unlock(&ctx->queueMutex);
@@ -228,7 +235,12 @@ static int POOL_resize_internal(POOL_ctx* ctx, size_t numThreads)
         ctx->threads = threadPool;
         /* Initialize additional threads */
         {   size_t threadId;
-            for (threadId = ctx->threadCapacity; threadId < numThreads; ++threadId) {
+            for (threadId = ctx->threadCapacity; threadId < numThreads; ++threadId)
+            ZSTD_VERIF_LOOP(
+                __CPROVER_assigns(threadId, __CPROVER_object_whole(threadPool))
+                __CPROVER_loop_invariant(threadId >= ctx->threadCapacity && threadId <= numThreads)
+                __CPROVER_decreases(numThreads - threadId))
+            {
                 if (ZSTD_pthread_create(&threadPool[threadId], NULL, &POOL_thread, ctx)) {
                     ctx->threadCapacity = threadId;
                     return 1;
@@ -280,6 +292,7 @@ POOL_add_internal(POOL_ctx* ctx, POOL_function function, void *opaque)
     ctx->queueEmpty = 0;
     ctx->queue[ctx->queueTail] = job;
     ctx->queueTail = (ctx->queueTail + 1) % ctx->queueSize;
+    ZSTD_VERIF_GHOST(zstd_verif_pool_accepted(ctx);)
     ZSTD_pthread_cond_signal(&ctx->queuePopCond);
 }
 
@@ -288,7 +301,9 @@ void POOL_add(POOL_ctx* ctx, POOL_function function, void* opaque)
     assert(ctx != NULL);
     ZSTD_pthread_mutex_lock(&ctx->queueMutex);
     /* Wait until there is space in the queue for the new job */
-    while (isQueueFull(ctx) && (!ctx->shutdown)) {
+    while (isQueueFull(ctx) && (!ctx->shutdown))
+    ZSTD_VERIF_LOOP(ZSTD_VERIF_POOL_WAITLOOP(ctx))
+    {
         ZSTD_pthread_cond_wait(&ctx->queuePushCond, &ctx->queueMutex);
     }
     POOL_add_internal(ctx, function, opaque);
